@@ -9,7 +9,7 @@ BATCH_INVS = ("TypeOK ConcurrencyBound WgCount AllSettledAtPost NoFakeSuccess At
 PLAN = {
     "C06": dict(mc_q=[("seq", 3, 1, 2, True), ("gated", 3, 2, 1, True), ("gatedcancel", 2, 2, 1, True), ("eres", 2, 2, 2, True), ("conc", 2, 2, 2, False)],
                 mc_t=[("seq", 4, 1, 2, True), ("gated", 4, 3, 1, True), ("gated", 3, 2, 2, True), ("gatedcancel", 3, 2, 2, True), ("conc", 3, 2, 2, False)],
-                gen_q=("continue,stop,cancel,single,empty,waves,storm,wait", 60), gen_t=("continue,stop,cancel,single,empty,waves,storm,wait", 1500)),
+                gen_q=("continue,stop,cancel,single,empty,waves,storm,wait,cancelfeed", 60), gen_t=("continue,stop,cancel,single,empty,waves,storm,wait,cancelfeed", 1500)),
     "C07": dict(mc_q=[("seq", 3, 1, 2, True), ("gated", 3, 2, 2, True), ("conc", 2, 2, 2, False)],
                 mc_t=[("seq", 4, 1, 3, True), ("gated", 3, 2, 2, True), ("gated", 4, 3, 1, True), ("conc", 3, 2, 2, False)],
                 gen_q=("continue,waves,storm,wait,rebudget", 90), gen_t=("continue,waves,storm,wait,rebudget", 2600)),
